@@ -1318,6 +1318,14 @@ namespace sim
                    v.index, (unsigned long long)v.seed, v.plan["ops"].size(), plan["ops"].size(), shrinkRuns,
                    rs.detail.c_str());
             printf("VIOLATION property=%s replay=%s\n", o.prop.c_str(), path.c_str());
+            {
+                // the shrunk plan itself, on one line: a log of the run is then enough to replay the violation elsewhere
+                std::string pj = plan.dump();
+                for (char &ch : pj)
+                    if (ch == '\n')
+                        ch = ' ';
+                printf("REPLAY-PLAN %s\n", pj.c_str());
+            }
             rec["replay"] = path;
             violJ.push(rec);
             exitCode = std::max(exitCode, 1);
